@@ -521,6 +521,11 @@ def c11(tier, rng, fam='C11'):
 
 # ------------------------------------------------------------------ C12 -----
 
+def _b64(n):
+    import base64
+    return base64.urlsafe_b64encode(bytes((i * 11 + n) % 256 for i in range(n))).decode()
+
+
 def srv_alphabet():
     """envelope shapes a peer may send to a server; {id} is filled in later"""
     U, S = '/verif.Svc/Unary', '/verif.Svc/Bidi'
@@ -547,6 +552,9 @@ def srv_alphabet():
     A['u_badmd_upper'] = lambda i, c: env(i, m=U, b='q', src='cliX', dst='srv', md=[['Trace-Bin', '*** not base64 ***']], c=c)
     A['s_open_badmd_upper'] = lambda i, c: env(i, m=S, src='cliX', dst='srv', md=[['X-BIN', '%%%']], c=c)
     A['u_upperbin_ok'] = lambda i, c: env(i, m=U, b='q', src='cliX', dst='srv', md=[['Trace-BIN', 'AP8Q'], ['k-Bin', '']], c=c)
+    # valid binary values longer than anybody's scratch buffer, of lengths that are not multiples of three
+    A['u_bigbin'] = lambda i, c: env(i, m=U, b='q', src='cliX', dst='srv', md=[['blob-bin', _b64(65)], ['blob2-bin', _b64(100)], ['blob3-bin', _b64(1001)]], c=c)
+    A['s_open_bigbin'] = lambda i, c: env(i, m=S, src='cliX', dst='srv', md=[['blob-bin', _b64(67)], ['blob2-bin', _b64(128)]], c=c)
     A['s_open'] = lambda i, c: env(i, m=S, src='cliX', dst='srv', c=c)
     A['s_open_ss'] = lambda i, c: env(i, m='/verif.Svc/SS', src='cliX', dst='srv', c=c)
     A['s_open_baddst'] = lambda i, c: env(i, m=S, src='cliX', dst='nobody', c=c)
@@ -657,6 +665,8 @@ def cli_alphabet():
     A['badmd_hdr_upper'] = lambda i, m: env(i, m=m, b='x', md=[['H-Bin', '***']])
     A['badmd_trailer_upper'] = lambda i, m: env(i, m=m, st=(0, 'OK'), t=[['T-BIN', '***']])
     A['upperbin_hdr_ok'] = lambda i, m: env(i, m=m, b='x', md=[['H-BIN', 'AP8Q']])
+    A['bigbin_hdr'] = lambda i, m: env(i, m=m, b='x', md=[['h-bin', _b64(65)], ['h2-bin', _b64(1001)]])
+    A['bigbin_trailer'] = lambda i, m: env(i, m=m, st=(0, 'OK'), t=[['t-bin', _b64(68)], ['t2-bin', _b64(100)]])
     A['hdr_emptykey'] = lambda i, m: env(i, m=m, b='x', md=[['k', 'v'], ['', 'nokey']])
     A['trailer_emptykey'] = lambda i, m: env(i, m=m, st=(0, 'OK'), t=[['', 'nokey'], [':status', '200']])
     A['rawbody'] = lambda i, m: env(i, m=m, braw='@7:%d' % (i + 11))
@@ -1235,6 +1245,7 @@ def c04(tier, rng, fam='C04'):
             out.append(b.q().done())
     out += concurrent_header_and_send(fam, 10 if tier == 'quick' else 200)
     out += same_key_other_case(fam, 9 if tier == 'quick' else 90)
+    out += binary_value_sizes(fam)
     out += [x for x in unencodable_elsewhere(fam) if 'sets headers' in x['tag']]
     # header / trailer calls in unusual order (Trailer before the end, Header again and again, SendHeader twice ...)
     out += [x for x in legal_oddities(fam) if any(w in x['tag'] for w in ('Trailer', 'Header', 'SetTrailer', 'SetHeader', 'SendHeader'))]
@@ -1806,6 +1817,7 @@ def legal_oddities(fam):
         out.append(b.q().done())
 
     S, R, C, H, T = (lambda p: ('send', dict(pay=p))), ('recv', {}), ('close', {}), ('hdr', {}), ('trl', {})
+    QQ = ('q', {})        # a census in mid-stream: whatever was asked so far has returned (Trailer never waits)
     for ser in (True, False):
         add('Send after CloseSend', 'bidi', echo_then_ok, [S('a'), R, C, S('after close'), R, R, T], ser)
         add('CloseSend twice', 'bidi', echo_then_ok, [S('a'), R, C, C, R, R, T], ser)
@@ -1813,8 +1825,8 @@ def legal_oddities(fam):
         # goat writes a second close / a body after the close then - DESIGN section 6; here the stream is over by then)
         add('Recv again and again after EOF', 'bidi', echo_then_ok, [S('a'), R, C, R, R, R, R, T, T], ser)
         add('Recv again after an error status', 'bidi', [dict(o='recv'), ret(code=9, msg='precondition', det=1)], [S('a'), R, R, R, T, S('late'), R], ser)
-        add('Trailer before the stream has ended', 'bidi', [dict(o='settrl', md=md2), dict(o='settrl', md=md3), dict(o='echo')], [T, S('a'), T, R, C, R, T, T], ser)
-        add('Trailer asked between the messages of a server stream', 'ss', [dict(o='recv'), dict(o='settrl', md=md2), dict(o='send', pay='x1'), dict(o='send', pay='x2'), dict(o='settrl', md=md3), dict(o='drain'), ret(code=4, msg='late')], [S('q'), C, R, T, R, T, R, T], ser)
+        add('Trailer before the stream has ended', 'bidi', [dict(o='settrl', md=md2), dict(o='settrl', md=md3), dict(o='echo')], [T, QQ, S('a'), T, QQ, R, C, R, T, T], ser)
+        add('Trailer asked between the messages of a server stream', 'ss', [dict(o='recv'), dict(o='settrl', md=md2), dict(o='send', pay='x1'), dict(o='send', pay='x2'), dict(o='settrl', md=md3), dict(o='drain'), ret(code=4, msg='late')], [S('q'), C, R, T, QQ, R, T, R, T], ser)
         add('Header three times, before, between and after receives', 'bidi', [dict(o='sethdr', md=md1), dict(o='echo')], [S('a'), H, R, H, C, R, H, T], ser)
         add('Header on a stream that fails before any response', 'bidi', [ret(code=5, msg='nope')], [H, R, H, T], ser)
         add('Header after the stream ended with headers in its trailer envelope', 'ss', [dict(o='recv'), dict(o='sethdr', md=md1), dict(o='settrl', md=md2), ret()], [S('q'), C, R, H, T, H], ser)
@@ -1881,6 +1893,36 @@ def unencodable_elsewhere(fam):
                 b.step('send', c=1, pay='go').step('close', c=1).step('recv', c=1, n=3)
                 b.step('ucall', c=2, pay='probe', hp=[ret(pay='fine')])
                 out.append(b.q().done())
+    return out
+
+
+BIN_SIZES = list(range(0, 101)) + [127, 128, 129, 130, 255, 256, 257, 1000, 1001, 1002, 4095, 4096, 4097]
+
+
+def _binval(n, salt=0):
+    return '@x:' + ''.join('%02x' % ((i * 7 + salt * 13 + n) % 256) for i in range(n))
+
+
+def binary_value_sizes(fam):
+    """binary metadata values of every size 0..100 and around 128, 256, 1000, 4096 bytes (base64 comes in groups of three
+    bytes; decoders have scratch buffers): request metadata, headers and trailers, byte-exact"""
+    out = []
+    sizes = list(BIN_SIZES)
+    k = 0
+    while sizes:
+        chunk, sizes = sizes[:6], sizes[6:]
+        md = [['v%d-bin' % n, _binval(n)] for n in chunk]
+        hd = [['h%d-bin' % n, _binval(n, 1)] for n in chunk]
+        tl = [['t%d-bin' % n, _binval(n, 2)] for n in chunk]
+        kind = ('unary', 'bidi', 'ss')[k % 3]
+        b = B(fam, 'binary values of %s bytes as request metadata, headers and trailers (%s)' % ('/'.join(str(n) for n in chunk), kind), ser=bool(k % 2))
+        if kind == 'unary':
+            b.step('ucall', c=1, pay='q', md=md, hp=[dict(o='sethdr', md=hd), dict(o='settrl', md=tl), ret(pay='r')])
+        else:
+            b.step('sopen', c=1, kind=kind, md=md, hp=[dict(o='recv'), dict(o='sethdr', md=hd), dict(o='send', pay='x'), dict(o='settrl', md=tl), dict(o='drain'), ret()])
+            b.step('send', c=1, pay='q').step('close', c=1).step('hdr', c=1).step('recv', c=1, n=2).step('trl', c=1)
+        out.append(b.q().done())
+        k += 1
     return out
 
 
